@@ -256,6 +256,22 @@ func ruleLastClose(c *Ctx, m *multiModel) {
 					sig = true
 				}
 			}
+			// ... and forgotten: the next Acquire binds again only when it finds no socket. A released listener that keeps
+			// pointing at its closed socket hands out handles with nothing behind them (reads block forever, Close panics).
+			isReset := func(ins ssa.Instruction) bool {
+				if st, ok := isStoreToField(ins, m.sockT, m.sockField); ok && eng.IsZeroValue(st.Val) {
+					return true
+				}
+				if m.sockEmbed != "" {
+					if st, ok := isStoreToField(ins, m.T, m.sockEmbed); ok {
+						_, isLoadZero := st.Val.(*ssa.UnOp)
+						return eng.IsZeroValue(st.Val) || isLoadZero
+					}
+				}
+				return false
+			}
+			okReset, badR := eng.MustPass(edgePoint(e), isReset)
+			c.Check("LASTCLOSE", m.T+":socket-forgotten-at-zero", blockPos(p, e.To), okReset, fmt.Sprintf("on the count == 0 edge the closure can return at %s with the socket field still set: re-acquisition after full release finds the closed socket and does not bind again", p.IPos(badR)))
 			c.Check("LASTCLOSE", m.T+":reader-signalled-at-zero", blockPos(p, e.To), sig, fmt.Sprintf("on the count == 0 edge no done channel of the reader goroutine is closed on every path (done-channel fields closed somewhere: %v)", dn))
 		}
 		// callback at most once, only at zero
